@@ -1146,6 +1146,25 @@ def make_builtins(I):
             ks = [I.call(key, [x], {}) for x in items]
         else:
             ks = items
+        if any(isinstance(k, SymObj) and k.cls is not None and k.cls.lookup("__lt__") is not _MISSING for k in ks):
+            # keys are objects that define their own ordering: a stable insertion sort through __lt__
+            def obj_lt(a, b):
+                r = truth(I, I.call(BoundMethod(a.cls.lookup("__lt__"), a), [b], {}))
+                if r is sp.true or r is True:
+                    return True
+                if r is sp.false or r is False:
+                    return False
+                raise AnalysisError("sorted: the key objects' __lt__ gives a symbolic result")
+            order = []
+            for i in range(len(items)):
+                pos = len(order)
+                while pos > 0 and obj_lt(ks[i], ks[order[pos - 1]]):
+                    pos -= 1
+                order.insert(pos, i)
+            if reverse:
+                order = order[::-1]
+            return [items[i] for i in order]
+
         def pk(k):
             if isinstance(k, (tuple, list)):
                 return tuple(pk(x) for x in k)
